@@ -1,5 +1,7 @@
 (* Driver for the C05 model (Model/StreamWrite.v).
-   case:  <blk> <shutans> ; ops ; beh0 | beh1 | ... ; oracle ; pollw
+   case:  <blk> <shutans> [<conn>] ; ops ; beh0 | beh1 | ... ; oracle ; pollw
+   conn:  "-" (opened connected) or t:<cres>:<so,so,...> / u:<cres>:<so,...> (right after
+          uv_tcp_connect / uv_pipe_connect; cres = connect(2) result 0 or -errno; so = SO_ERROR answers)
    ops:   W<lens> T<lens> S C R     lens: comma separated, "a*k" = k buffers of length a
    oracle: n<k> (write returned k)  e<errno> (write failed)
    prints the canonical trace (see harness/c05_stream.c). *)
@@ -30,15 +32,23 @@ let parse_answer (tok : string) : answer =
 let case (line : string) : string =
   match String.split_on_char ';' line with
   | [hd; ops; behs; orc; pw] ->
-      let blk, sa = match split_on ' ' hd with
-        | [b; a] -> (b = "1", z_of_string a) | _ -> failwith "bad header" in
+      let parse_conn c =
+        if c = "-" then None else
+        match String.split_on_char ':' c with
+        | [k; cres; so] -> Some ((k = "t", z_of_string cres), List.map z_of_string (split_on ',' so))
+        | [k; cres] -> Some ((k = "t", z_of_string cres), [])
+        | _ -> failwith "bad conn" in
+      let blk, sa, conn = match split_on ' ' hd with
+        | [b; a] -> (b = "1", z_of_string a, None)
+        | [b; a; c] -> (b = "1", z_of_string a, parse_conn c)
+        | _ -> failwith "bad header" in
       let ops = List.map parse_op (split_on ' ' ops) in
       let beha = Array.of_list (List.map (fun b -> List.map parse_op (split_on ' ' b))
                                   (String.split_on_char '|' behs)) in
       let beh k = let k = int_of_nat k in if k < Array.length beha then beha.(k) else [] in
       let o = List.map parse_answer (split_on ' ' orc) in
       let pw = List.map (fun t -> t <> "0") (split_on ' ' pw) in
-      let s = exec beh (init blk o sa pw) ops in
+      let s = exec beh (init blk o sa pw conn) ops in
       let buf = Buffer.create 1024 in
       let add = Buffer.add_string buf in
       let total = ref BZ.zero in
@@ -58,7 +68,8 @@ let case (line : string) : string =
         | ESysShut a -> add (Printf.sprintf "Y:%s " (string_of_z a))
         | EShutCb c -> add (Printf.sprintf "B:%s " (string_of_z c))
         | ECloseCb -> add "x "
-        | EQ q -> add (Printf.sprintf "q%s " (string_of_n q))) (trace s);
+        | EQ q -> add (Printf.sprintf "q%s " (string_of_n q))
+        | EConnCb c -> add (Printf.sprintf "k:%s " (string_of_z c))) (trace s);
       add (Printf.sprintf "e%s,%d,1" (BZ.to_string !total) (if s.shut || not s.fdopen then 1 else 0));
       Buffer.contents buf
   | _ -> failwith "bad case"
